@@ -78,6 +78,28 @@ def blank_cond(e):
     return e["value"] == "" and e["variable"] == "" and e["ctype"] == "" and e["name"] == ""
 
 
+def pad_rows(rows, width=None):
+    """the rows as a rectangular sheet with edges.N.* columns literally holds them: every row has `width` edge entries
+    (default: the widest row's), the missing ones blank throughout"""
+    import copy
+    width = width or max([len(r["edges"]) for r in rows] + [1])
+    out = []
+    for r in rows:
+        r = copy.deepcopy(r)
+        r["edges"] = r["edges"] + [edge() for _ in range(width - len(r["edges"]))]
+        out.append(r)
+    return out
+
+
+def written_rows(rows, headers):
+    """the abstract rows as the rendered sheet holds them (what a model of the PARSER must be given): padded to the
+    number of edges.N columns when the sheet was rendered with the long headers, unchanged with the short ones"""
+    n = 0
+    while f"edges.{n + 1}.from" in headers:
+        n += 1
+    return pad_rows(rows, n) if n else rows
+
+
 # ---------------------------------------------------------------- rendering to columns
 def main_arg_cell(row):
     t, a = row["type"], row.get("arg", "")
@@ -96,20 +118,10 @@ def render_sheet(rows, rng=None, layout=None):
     maxe = max([len(r["edges"]) for r in rows] + [1])
     if layout is None:
         layout = "short" if (rng is None or rng.random() < 0.6) else "long"
-    # no_op / go_to / exit rows apply EVERY edges.N entry, also an all-blank one (= an
-    # unconditional edge from the preceding row), so in a rectangular long-header sheet they
-    # must have as many edges as the widest row; otherwise use the short headers
-    seen_names, merged = set(), []
-    for r in rows:
-        nm = r.get("node_uuid") or r.get("node_name")
-        if nm and nm in seen_names:
-            merged.append(r)      # merged into an existing node: needs EXACTLY one edge entry
-        if nm:
-            seen_names.add(nm)
-    if layout == "long" and (any(r["type"] in ("no_op", "go_to", "hard_exit", "loose_exit", "begin_for", "begin_block", "insert_as_block")
-                                 and len(r["edges"]) != maxe for r in rows)
-                             or any(len(r["edges"]) != maxe for r in merged)):
-        layout = "short"
+    # A sheet is rectangular: with the long headers a row that has fewer edges than the widest row has blank
+    # edges.N.* cells.  A blank cell is not an edge, in a row of any type (the defect `padded-edge-columns` - go_to /
+    # no_op / exit / block rows applied such an entry to the preceding row, rows merged through their node name were
+    # rejected - is repaired; a tree that reads padding as an edge again is reported through these sheets).
     out = []
     used = set()
     for r in rows:
@@ -181,8 +193,12 @@ class Gen:
     names an earlier row, at most one default continuation per row, distinct (test,args)
     per decision, one operand per decision, distinct category names per decision."""
 
-    def __init__(self, rng, wf=True, special_text=True, prefix=""):
+    def __init__(self, rng, wf=True, special_text=True, prefix="", has_group=False, clash_names=False):
         self.rng = rng
+        self.clash_names = clash_names  # now and then an explicit category name that another category of the decision has
+                                        # already: the name invented for an earlier unnamed test, "Other", "No Response"
+        self.has_group = has_group      # also write has_group tests (group membership by group NAME) on edges of rows
+                                        # that are not group splits: waits, value splits, action rows, no_op decisions
         self.wf = wf
         self.special_text = special_text
         self.prefix = prefix
@@ -293,7 +309,11 @@ class Gen:
     def case_cond(self, inf, var):
         r = self.rng
         ctype = r.choice(["", "", ""] + TEST_TYPES_OK)
-        if ctype in NO_ARG_TESTS:
+        if self.has_group and r.random() < 0.15:
+            ctype = "has_group"
+        if ctype == "has_group":
+            value = self.simple() + " group"
+        elif ctype in NO_ARG_TESTS:
             # tests without arguments are usually written with a blank value: the edge is still conditional
             value = r.choice(["", "", "x"])
         else:
@@ -313,6 +333,9 @@ class Gen:
                 # the category is the one already there, and the edge written last says where it leads
                 name = r.choice(sorted(inf["names"]))
             inf["names"].add(name)
+        if self.clash_names and r.random() < 0.08:
+            taken = ["Other", "No Response"] + [k[1].title() for k in sorted(inf["tests"], key=repr) if isinstance(k, tuple) and k[1] and k[1] != value]
+            name = r.choice(taken)
         return edge(value=value, variable=var, ctype=ctype, name=name)
 
     # -- rows -----------------------------------------------------------------------------
@@ -466,8 +489,8 @@ class Gen:
         return self.rows
 
 
-def gen_core_sheet(rng, n_rows, wf=True, special_text=True):
-    g = Gen(rng, wf=wf, special_text=special_text)
+def gen_core_sheet(rng, n_rows, wf=True, special_text=True, has_group=False, clash_names=False):
+    g = Gen(rng, wf=wf, special_text=special_text, has_group=has_group, clash_names=clash_names)
     rows = g.generate(n_rows)
     return rows, g
 
